@@ -35,6 +35,22 @@ CLAIMS = {
          "from it (need-more is never turned into a definite 'no'; three reviewed trailing-probe exceptions); the MatchingBytes view is read-only and used only where reviewed; matchers do not "
          "modify the connection and publish memoised state only after their last read; the freeze/unfreeze bracket. Verdict monotonicity per protocol is value-level and not decided.",
          "DESIGN.md section 4 C06"),
+ "C08": ("effect summaries (which parameters a function writes through) over the module call graph, atomic-consistency census, pool-lifetime alias analysis, goroutine join rule",
+         "Decided for all per-connection code (everything reachable from Match/Handle/Select/handle): fields accessed with sync/atomic are accessed only so; no plain store or map update reaches the shared "
+         "module instance or a package-level variable, directly or through a callee; package-level variables used per connection are value-like or reviewed as concurrency-safe; a pooled buffer is never retained "
+         "past its Put and is recycled under exactly the guard under which its connection is closed; handler goroutines with access to the connection are joined (tee reviewed); Connection.Write stores nothing plainly. "
+         "General race freedom is not decided.",
+         "DESIGN.md section 4 C08"),
+ "C09": ("channel-ownership analysis (close vs. senders), key-derivation provenance, who-may-read census, send-kind check over go/ssa",
+         "Decided: no channel is closed while another function sends on it unjoined (the defect repaired in /repo); the association table is keyed, filled and cleaned with one derivation of the client address; "
+         "replies go to the address fixed at association creation; one ReadFrom site in one reader goroutine per socket, one blocking forward per datagram, one serve loop per listener; close notifications are never dropped. "
+         "Interleavings with idle expiry and back-pressure are not decided.",
+         "DESIGN.md section 4 C09"),
+ "C13": ("path evaluation of pipeConnection/Accept, guard-equality and dominance rules for the shutdown protocol, bounded abstract interpretation of the route handler",
+         "Decided: hand-off is the wrapper's fallback; pipeConnection sends exactly once and reports errHijacked on every path; Close and buffer recycling happen under the same 'not hijacked' guard; the WaitGroup/close/drain "
+         "shutdown protocol (Add before go, deferred Done, close after Wait in its own goroutine, drain not behind Wait, pending connections closed, Accept reports net.ErrClosed); the delivered value reads through the layer4 "
+         "connection; nothing is handed off after a terminal route on any explored path. Blocking while the consumer is slow is by design and not decided.",
+         "DESIGN.md section 4 C13"),
 }
 
 checks = []
